@@ -486,10 +486,10 @@ func enumFamilies() []cspec {
 		}
 	}
 	junk := []string{"\xff", "\xe3\x80", "\xc4\xb0", "\xe2\x84\xaa", "\xc3", "\xf0\x9f", "A\xff", "<\xff?", "<?\xff"}
-	tails := []string{"<?php", "<?php ", "<?php 1;", "<?php echo 1;", "<?php echo 1; ?>x", "<?PHP echo 1;", "<?Php 1;", "<?php\n", "<?php ?>", "<?php echo 1; ?>\xff<?php 2;"}
+	tagTails := []string{"<?php", "<?php ", "<?php 1;", "<?php echo 1;", "<?php echo 1; ?>x", "<?PHP echo 1;", "<?Php 1;", "<?php\n", "<?php ?>", "<?php echo 1; ?>\xff<?php 2;"}
 	for ji, j := range junk {
 		for _, k := range []int{1, 2, 3, 8, 40} {
-			for ti, t := range tails {
+			for ti, t := range tagTails {
 				add("tagpos", fmt.Sprintf("%d:%d:%d", ji, k, ti), strings.Repeat(j, k)+t, false)
 			}
 		}
